@@ -1,6 +1,155 @@
-/-! line-protocol handlers (stub: filled in when the suite is built) -/
-namespace Apko.Driver.Layers
+import Apko.Model.Layers
+/-! line-protocol handlers for corr:layers (C10)
 
-def handle (_args : List String) : Option String := none
+  l.group  budget  pkgs  goOut      → impl \t verdict(goOut) \t class
+  l.split  groups  walk  goLayers   → impl \t verdict(goLayers) \t class
+  l.bytes  …                        → byte-level oracle evaluated by the harness (oracle-go)
+  l.e2e    budget buildOnly diff    → end-to-end oracle evaluated by the harness (oracle-go); class only
+
+encodings (strings hex, lists separated by `;`, fields by `,`, sub-lists by `:`):
+  pkgs    name,origin,version,size,rep:rep:…;…
+  groups  name,name|name,…           (`-` for no group at all)
+  walk    path,d|f,mtime,hdr,owner;… (path = hex of the slash-separated name, owner empty = none)
+  layers  path,d|f,mtime,hdr;…|…     (`~` for an empty layer)
+-/
+namespace Apko.Driver.Layers
+open Apko Apko.Layers
+
+def splitNE (s : String) (sep : String) : List String :=
+  if s.isEmpty then [] else s.splitOn sep
+
+def parsePkg (s : String) : LPkg :=
+  match s.splitOn "," with
+  | [n, o, v, sz, reps] =>
+    ⟨unhexS n, unhexS o, unhexS v, (splitNE reps ":").map unhexS, sz.toNat!⟩
+  | _ => default
+
+def parsePkgs (s : String) : List LPkg := (splitNE s ";").map parsePkg
+
+def showGroups (gs : List (List Text)) : String :=
+  if gs.isEmpty then "-" else "|".intercalate (gs.map fun g => ",".intercalate (g.map hexS))
+
+def parseGroups (s : String) : List (List Text) :=
+  if s = "-" then [] else (s.splitOn "|").map fun g => (splitNE g ",").map unhexS
+
+def showRes : Res (List Grp) → String
+  | .ok gs => "ok " ++ showGroups (gs.map fun g => g.pkgs.map (·.name))
+  | .err => "err"
+  | .panic => "panic"
+
+/-- insertion sort by code points: one more iteration order to try -/
+def sortText (l : List Text) : List Text := l.mergeSort (fun a b => decide (a ≤ b))
+
+def rot (l : List Text) : List Text := l.drop (l.length / 2) ++ l.take (l.length / 2)
+
+/-- the model under several choices of the four map orders; they must agree -/
+def implGroup (pkgs : List LPkg) (budget : Int) : String :=
+  let r0 := groupByOriginAndSize pkgs budget id id id id
+  let rs := [groupByOriginAndSize pkgs budget List.reverse List.reverse List.reverse List.reverse,
+             groupByOriginAndSize pkgs budget sortText rot List.reverse sortText,
+             groupByOriginAndSize pkgs budget rot sortText rot List.reverse]
+  if rs.all (· == r0) then showRes r0 else "order-dependent"
+
+def permOf (a b : List Text) : Bool :=
+  a.length == b.length && a.all (fun x => a.count x == b.count x) && b.all (fun x => a.contains x)
+
+/-- the property's demands on a grouping, evaluated on what the Go code returned -/
+def verdictGroup (pkgs : List LPkg) (budget : Int) (go : String) : String × String :=
+  if go = "panic" then ("fail:panic", "unlisted")
+  else if go = "err" then
+    -- a negative budget (outside the property's quantifier) is rejected; otherwise an error is
+    -- legitimate exactly when some replaces entry cannot be evaluated
+    (if budget < 0 || replacesError pkgs then "pass" else "fail:spurious-error", "unlisted")
+  else if !go.startsWith "ok " then ("fail:unparsable", "unlisted")
+  else
+    let names := parseGroups (go.drop 3).toString
+    let gs : List Grp := names.map fun g =>
+      ⟨g.filterMap (fun n => pkgs.find? (·.name = n)), 0, []⟩
+    if !(permOf names.flatten (pkgs.map (·.name))) then ("fail:partition", "unlisted")
+    else if !(pkgs.all fun a => pkgs.all fun b =>
+        !(a.origin = b.origin || replacesEdge pkgs a b) || sameGroup gs a b) then
+      ("fail:closure", "unlisted")
+    else if budget < 0 then ("fail:negative-budget-accepted", "unlisted")
+    else if gs.length > budget.toNat then
+      ("fail:count", if budget = 0 && gs.length = 1 then "F10a" else "unlisted")
+    else ("pass", "-")
+
+/-! ### split -/
+
+def parsePath (h : String) : Path :=
+  (splitOnChar '/' (unhexS h)).filter (fun c => !c.isEmpty)
+
+def showPath (p : Path) : String := hexS (joinWith ['/'] p)
+
+def parseWEntry (s : String) : WEntry :=
+  match s.splitOn "," with
+  | [p, k, m, h, o] =>
+    ⟨⟨parsePath p, k == "d", m.toNat!, h.toNat!⟩, if o.isEmpty then none else some (unhexS o)⟩
+  | _ => default
+
+def parseWalk (s : String) : List WEntry := (splitNE s ";").map parseWEntry
+
+def parseEntry (s : String) : Entry :=
+  match s.splitOn "," with
+  | [p, k, m, h] => ⟨parsePath p, k == "d", m.toNat!, h.toNat!⟩
+  | _ => default
+
+def parseLayers (s : String) : List (List Entry) :=
+  (s.splitOn "|").map fun l => if l = "~" then [] else (splitNE l ";").map parseEntry
+
+def showEntry (e : Entry) : String :=
+  s!"{showPath e.path},{if e.isDir then "d" else "f"},{e.mtime},{e.hdr}"
+
+def showLayers (ls : List (List Entry)) : String :=
+  "|".intercalate (ls.map fun l => if l.isEmpty then "~" else ";".intercalate (l.map showEntry))
+
+def implSplit (groups : List (List Text)) (walk : List WEntry) : String :=
+  match splitLayers groups walk with
+  | none => "panic"
+  | some ls => "ok " ++ showLayers ls
+
+def verdictSplit (groups : List (List Text)) (walk : List WEntry) (go : String) : String :=
+  if go = "panic" then "fail:panic"
+  else if !go.startsWith "ok " then "fail:unparsable"
+  else
+    let ls := parseLayers (go.drop 3).toString
+    let n := groups.length
+    let paths := walk.map (·.path)
+    if !(decide paths.Nodup && walk.all (fun f => !f.path.isEmpty) && StackOK walk && WellNested walk
+          && walk.all (fun f => !f.isDir || f.owner.isNone)) then "fail:walk-assumption"
+    else if ls.length != n + 1 then "fail:layer-count"
+    else
+      let tgt (f : WEntry) : Nat := match f.owner with
+        | none => n
+        | some p => (layerOfGroups groups p).getD (n + 1)
+      if !(walk.all fun f => f.isDir ||
+            (List.range (n + 1)).all fun k =>
+              ((ls.getD k []).filter (fun e => e.path = f.path)) ==
+                (if k = tgt f then [f.toEntry] else [])) then "fail:file-once"
+      else if !(ls.all layerWellFormed) then "fail:wellformed"
+      else if !(walk.all fun f => !f.isDir || (ls.getD n []).contains f.toEntry) then "fail:top-dirs"
+      else if !((paths ++ ls.flatten.map (·.path)).all fun p =>
+            lastFor ls.flatten p == lastFor (singleLayer walk) p) then "fail:flatten"
+      else "pass"
+
+def handle (args : List String) : Option String :=
+  match args with
+  | ["l.group", budget, pkgs, go] =>
+    let ps := parsePkgs pkgs
+    let b := budget.toInt!
+    let (v, cls) := verdictGroup ps b go
+    some (implGroup ps b ++ "\t" ++ v ++ "\t" ++ cls)
+  | ["l.split", groups, walk, go] =>
+    let gs := parseGroups groups
+    let w := parseWalk walk
+    let v := verdictSplit gs w go
+    some (implSplit gs w ++ "\t" ++ v ++ "\t" ++ (if v = "pass" then "-" else "unlisted"))
+  | "l.bytes" :: _ => some "-\t-\tunlisted"
+  | ["l.e2e", _budget, buildOnly, diff] =>
+    -- class F10c: a build-only repository is configured and the only difference between the flattened
+    -- multi-layer image and the single-layer image is etc/apk/repositories
+    let cls := if buildOnly = "1" && unhexS diff = "etc/apk/repositories".toList then "F10c" else "unlisted"
+    some ("-\t-\t" ++ cls)
+  | _ => none
 
 end Apko.Driver.Layers
